@@ -200,7 +200,7 @@ func (g *Gen) genArith(p *Prog, ops []string) {
 	case "quo":
 		x := g.any()
 		y := g.any()
-		switch g.intn(5) {
+		switch g.intn(6) {
 		case 0: // divisor a power of two: ties
 			if x.Form == 1 {
 				k := 1 + g.intn(10)
@@ -209,6 +209,31 @@ func (g *Gen) genArith(p *Prog, ops []string) {
 					x.Digits = trimZeros(g.digitsPattern(int(prec)))
 					x.Prec = uint(len(x.Digits))
 				}
+			}
+		case 3: // dividend much longer than the receiver's precision: x = (q*y)*10^k + r with 0 < r < 10^k,
+			// so the quotient of the high part is exact and the low part only makes the result inexact
+			yy := digitsToInt(g.digitsPattern(1 + g.intn(25)))
+			q := digitsToInt(g.digitsPattern(1 + g.intn(12)))
+			if g.chance(0.5) { // quotient ending in 5 at the rounding position, or with a zero rounding digit
+				q.Mul(q, big.NewInt(10))
+				q.Add(q, big.NewInt(int64([]int{0, 5, 0, 5, 1}[g.intn(5)])))
+			}
+			k := 19 * (1 + g.intn(4))
+			hi := new(big.Int).Mul(q, yy)
+			hi.Mul(hi, new(big.Int).Exp(big.NewInt(10), big.NewInt(int64(k)), nil))
+			r := big.NewInt(int64(1 + g.intn(9)))
+			if g.chance(0.5) {
+				r = digitsToInt(g.digitsPattern(1 + g.intn(k-1)))
+			}
+			hi.Add(hi, r)
+			y = intToVal(yy, int64(g.intn(9)-4), g.intn(2) == 0, uint(g.intn(3)), g.mode())
+			x = intToVal(hi, int64(g.intn(9)-4), g.intn(2) == 0, uint(g.intn(3)), g.mode())
+			prec = uint(len(q.String())) - uint(g.intn(2))
+			if prec == 0 {
+				prec = 1
+			}
+			if g.chance(0.3) {
+				prec += uint(g.intn(4))
 			}
 		case 2: // Knuth-D stress through the public API: adversarial divisor words, exact multiples
 			wordsOf := func(n int) string {
